@@ -28,6 +28,34 @@ impl Impl for ForeignTuple {
     const IDX: u8 = FOREIGN_TUPLE;
 }
 
+/// lazily formatted pieces of failure signatures (no allocation unless a check fails)
+pub struct Hex(pub u8);
+impl std::fmt::Display for Hex {
+    fn fmt(&self, f: &mut std::fmt::Formatter) -> std::fmt::Result {
+        write!(f, "{:#04x}", self.0)
+    }
+}
+struct Boundary(u8, u8);
+impl std::fmt::Display for Boundary {
+    fn fmt(&self, f: &mut std::fmt::Formatter) -> std::fmt::Result {
+        if self.0 == 0xB0 && (119..=121).contains(&self.1) {
+            write!(f, "/cc{}", self.1)
+        } else {
+            Ok(())
+        }
+    }
+}
+pub struct Pre3<'a>(pub &'a str, pub &'a str, pub Option<u8>);
+impl<'a> std::fmt::Display for Pre3<'a> {
+    fn fmt(&self, f: &mut std::fmt::Formatter) -> std::fmt::Result {
+        write!(f, "{}/{}", self.0, self.1)?;
+        if let Some(b) = self.2 {
+            write!(f, "/{:#04x}", b)?;
+        }
+        Ok(())
+    }
+}
+
 pub fn triple_simplicity(s: u8, d1: u8, d2: u8) -> u128 {
     let nz = (d1 != 0) as u128 + (d2 != 0) as u128 + ((s & 0x0F) != 0 && s < 0xF0) as u128;
     (nz << 32) | ((s as u128) << 16) | ((d1 as u128) << 8) | d2 as u128
@@ -106,6 +134,29 @@ fn in_range_obs(o: &Obs) -> Result<(), Fail> {
     Ok(())
 }
 
+/// Checks every observable of `m` against the reference decoding of the triple it is supposed to
+/// carry (`structured`: byte observables are compared with the canonical triple).
+pub fn check_msg_is<M: ShortMessage>(m: &M, s: u8, d1: u8, d2: u8, structured: bool, pre: &dyn std::fmt::Display) -> Result<(), Fail> {
+    let o = observe(m);
+    in_range_obs(&o)?;
+    let want = if structured { ref_canon(s, d1, d2) } else { (s, d1, d2) };
+    ensure_eq!(o.bytes, want, format!("{}/bytes", pre));
+    ensure_eq!((o.status, o.d1, o.d2), want, format!("{}/byte_getters", pre));
+    let d = ref_decode(want.0, want.1, want.2);
+    ensure_eq!(Some(o.ty), ref_type(d.type_byte), format!("{}/type", pre));
+    ensure_eq!(o.channel, d.channel, format!("{}/channel", pre));
+    ensure_eq!(o.key, d.key, format!("{}/key_number", pre));
+    ensure_eq!(o.velocity, d.velocity, format!("{}/velocity", pre));
+    ensure_eq!(o.controller, d.controller, format!("{}/controller_number", pre));
+    ensure_eq!(o.control_value, d.control_value, format!("{}/control_value", pre));
+    ensure_eq!(o.program, d.program, format!("{}/program_number", pre));
+    ensure_eq!(o.pressure, d.pressure, format!("{}/pressure_amount", pre));
+    ensure_eq!(o.bend, d.bend, format!("{}/pitch_bend_value", pre));
+    ensure_eq!(o.structured, ref_structured(want.0, want.1, want.2), format!("{}/to_structured", pre));
+    Ok(())
+}
+
+#[macro_export]
 macro_rules! for_impl {
     ($idx:expr, $f:ident ( $($arg:expr),* )) => {
         match $idx {
@@ -459,8 +510,8 @@ fn c02_impl<M: Impl>(s: u8, d1: u8, d2: u8) -> CheckResult {
     let o = observe(&m);
     in_range_obs(&o)?;
     let d = ref_decode(s, d1, d2);
-    let tb = format!("{:#04x}", d.type_byte);
-    let boundary = if d.type_byte == 0xB0 && (119..=121).contains(&d1) { format!("/cc{}", d1) } else { String::new() };
+    let tb = Hex(d.type_byte);
+    let boundary = Boundary(d.type_byte, d1);
     ensure_eq!(Some(o.ty), ref_type(d.type_byte), format!("type/{}/{}", name, tb));
     ensure_eq!(u8::from(o.ty), d.type_byte, format!("type_byte/{}/{}", name, tb));
     ensure_eq!(o.channel, d.channel, format!("channel/{}/{}", name, tb));
